@@ -619,3 +619,111 @@ def pragma_label(spec):
 
 def fk_on(spec):
     return spec != "absent" and str(spec["set"].get("foreign_keys", "")).upper() in FK_ON
+
+
+# -- imports overlapping in time (threads) / imports in a child process with another locale (C02) --------------------------
+def forest_params(rng, ns=None):
+    """Parameters (JSON-able, small) of a forest of a few hundred lines: `genes` genes with 2-4 transcripts each, 3-6 exons per
+    transcript, a few parts below exons.  `ns` is the id namespace: two forests with the same ns use the SAME ids with other
+    Parent links (the wiring is drawn from `seed`)."""
+    return {"seed": rng.randrange(10 ** 9), "genes": rng.randrange(9, 17), "ns": ns if ns is not None else "f%d" % rng.randrange(1000)}
+
+
+def forest_graph(p):
+    """The graph of forest_params(): four layers (gene, mRNA, exon/CDS, match_part), >= 3 levels everywhere; a transcript names
+    a gene drawn from all genes (sometimes two), an exon 1-2 transcripts drawn from a drawn gene (sometimes also the gene:
+    shortcut; sometimes a Parent value naming no line)."""
+    import random
+
+    rng = random.Random(p["seed"] * 17 + 3)
+    ns, ng = p["ns"], p["genes"]
+
+    def node(nid, ft, layer, start, end, parents):
+        return {"id": nid, "type": ft, "seqid": "chr1", "start": start, "end": end, "strand": rng.choice("+-"), "layer": layer,
+                "parents": parents, "style": rng.choice(["comma", "comma", "repeat"]),
+                "idpos": rng.choice(["first", "first", "last"]), "name": None}
+
+    nodes = []
+    ntx = [rng.randrange(2, 5) for _ in range(ng)]
+    for g in range(ng):
+        nodes.append(node("%s.g%d" % (ns, g), "gene", 0, 1 + 5000 * g, 4900 + 5000 * g, []))
+    for g in range(ng):
+        for t in range(ntx[g]):
+            ps = ["%s.g%d" % (ns, rng.randrange(ng))]
+            if rng.random() < 0.15:
+                other = "%s.g%d" % (ns, rng.randrange(ng))
+                if other not in ps:
+                    ps.append(other)
+            nodes.append(node("%s.g%d.t%d" % (ns, g, t), "mRNA", 1, 1 + 5000 * g, 4900 + 5000 * g, ps))
+    for g in range(ng):
+        for t in range(ntx[g]):
+            for e in range(rng.randrange(3, 7)):
+                og = rng.randrange(ng)
+                ps = ["%s.g%d.t%d" % (ns, og, rng.randrange(ntx[og]))]
+                r = rng.random()
+                if r < 0.2:
+                    o2 = "%s.g%d.t%d" % (ns, og, rng.randrange(ntx[og]))
+                    if o2 not in ps:
+                        ps.append(o2)
+                elif r < 0.3:
+                    ps.append("%s.g%d" % (ns, rng.randrange(ng)))           # possibly a shortcut
+                elif r < 0.34:
+                    ps.append("%s.nowhere%d" % (ns, rng.randrange(5)))    # dangling
+                rng.shuffle(ps)
+                eid = "%s.g%d.t%d.e%d" % (ns, g, t, e)
+                s = 1 + 5000 * g + 100 * e
+                nodes.append(node(eid, rng.choice(["exon", "exon", "CDS"]), 2, s, s + 60, ps))
+                if rng.random() < 0.12:
+                    nodes.append(node(eid + ".p", "match_part", 3, s, s + 9, [eid]))
+    return {"nodes": nodes, "edge": "raw"}
+
+
+NONASCII_WORDS = ["géne", "tränscript", "ex€n", "ген", "遺伝子", "αβ", "naïve",
+                  "\U0001d4d6", "ñu", "גן", "Ångström", "ß"]
+
+
+def make_nonascii(rng, g):
+    """Rename 2-4 ids (features WITH grandchildren or grandparents first) and the Parent values naming them to words with
+    characters outside ASCII; returns the number renamed (0: nothing to rename).  The file is written with ascii_text_of()."""
+    nodes = g["nodes"]
+    byid = {n["id"]: n for n in nodes}
+    kids = {}
+    for n in nodes:
+        for p in n["parents"]:
+            kids.setdefault(p, []).append(n["id"])
+    top = [i for i in byid if any(kids.get(c) for c in kids.get(i, ()))]
+    bottom = [n["id"] for n in nodes if any(byid[p]["parents"] for p in n["parents"] if p in byid)]
+    middle = [i for i in byid if kids.get(i) and byid[i]["parents"]]
+    first = [rng.choice(top)] if top else []
+    if bottom and rng.random() < 0.8:
+        first.append(rng.choice(bottom))
+    if middle and rng.random() < 0.6:
+        first.append(rng.choice(middle))
+    rest = [i for i in byid if i not in first]
+    rng.shuffle(rest)
+    pick = list(dict.fromkeys(first + rest[:rng.randrange(0, 3)]))[:4]
+    mapping = {}
+    used = set(byid) | {p for n in nodes for p in n["parents"]}
+    for i in pick:
+        for _ in range(20):
+            new = rng.choice(NONASCII_WORDS) + rng.choice(["", "1", "2", ".x", "-a"])
+            if rng.random() < 0.3:
+                new = rng.choice(["x", "id_", ""]) + new
+            if new not in used:
+                used.add(new)
+                mapping[i] = new
+                break
+    for n in nodes:
+        n["id"] = mapping.get(n["id"], n["id"])
+        n["parents"] = [mapping.get(p, p) for p in n["parents"]]
+        if n.get("name") and not n["name"].isascii():
+            n["name"] = None
+    return len(mapping)
+
+
+def ascii_text_of(g, order):
+    """text_of() with every character outside ASCII written percent-encoded (its UTF-8 bytes): an ASCII-only GFF3 file."""
+    text = text_of(g, order)
+    out = "".join(c if ord(c) < 128 else "".join("%%%02X" % b for b in c.encode("utf-8")) for c in text)
+    assert out.isascii()
+    return out
